@@ -12,6 +12,8 @@ import OtterVerif.Conc.DrainSkeleton
 import OtterVerif.Conc.PersistSkeleton
 import OtterVerif.Gen.Skeleton
 import OtterVerif.Gen.Deadline
+import OtterVerif.Gen.PersistSites
+import OtterVerif.Pin.PersistSites
 
 namespace OtterVerif.Props.C19
 open OtterVerif OtterVerif.Spec
@@ -115,5 +117,55 @@ theorem skeleton_LoadCacheFrom : Gen.Skeleton.LoadCacheFrom = Conc.PersistSkelet
 /-- SaveCacheTo walks the entries through Hottest = evictionOrder: the whole walk happens under the eviction lock -/
 theorem skeleton_cache_evictionOrder : Gen.Skeleton.cache_evictionOrder = Conc.DrainSkeleton.cache_evictionOrder := by decide
 theorem skeleton_SaveCacheTo : Gen.Skeleton.SaveCacheTo = Conc.PersistSkeleton.SaveCacheTo := by decide
+
+/-! ### LoadCacheFrom's arithmetic, regenerated from persistence.go -/
+
+private theorem smax_one_pos (x : BitVec 64) : 0 < (Bv.smax (1#64) x).toInt := by
+  unfold Bv.smax
+  by_cases h : BitVec.slt (1#64) x = true
+  · simp only [h, ↓reduceIte]
+    have := (BitVec.slt_eq_decide (x := 1#64) (y := x)).symm ▸ h
+    have h1 : (1#64).toInt = 1 := by decide
+    simp only [decide_eq_true_eq, h1] at this
+    omega
+  · simp only [h, Bool.false_eq_true, ↓reduceIte]; decide
+
+/-- the duration handed to SetExpiresAfter / SetRefreshableAfter is at least one nanosecond for EVERY saved deadline and
+    clock reading — those setters ignore durations ≤ 0, so a deadline that has passed is restored as due, never skipped -/
+theorem c19_gen_restored_duration_positive (saved now : BitVec 64) :
+    0 < (Gen.PersistSites.LoadCacheFrom_a8 saved now).toInt ∧ 0 < (Gen.PersistSites.LoadCacheFrom_a9 saved now).toInt :=
+  ⟨smax_one_pos _, smax_one_pos _⟩
+
+/-- it is `max 1 (saved - now)`, the expression `restoredDeadline` is built from (no wrap: both readings within ±2^62) -/
+theorem c19_gen_restored_duration (saved now : BitVec 64) (hs : -2 ^ 62 ≤ saved.toInt ∧ saved.toInt < 2 ^ 62)
+    (hn : -2 ^ 62 ≤ now.toInt ∧ now.toInt < 2 ^ 62) :
+    (Gen.PersistSites.LoadCacheFrom_a8 saved now).toInt = max 1 (saved.toInt - now.toInt) ∧
+    (Gen.PersistSites.LoadCacheFrom_a9 saved now).toInt = max 1 (saved.toInt - now.toInt) := by
+  have hsub : (saved - now).toInt = saved.toInt - now.toInt := by
+    rw [BitVec.toInt_sub]
+    apply Int.bmod_eq_of_le <;> omega
+  have key : (Bv.smax (1#64) (saved - now)).toInt = max 1 (saved.toInt - now.toInt) := by
+    unfold Bv.smax
+    have h1 : (1#64).toInt = 1 := by decide
+    by_cases h : BitVec.slt (1#64) (saved - now) = true
+    · simp only [h, ↓reduceIte]
+      rw [BitVec.slt_eq_decide, h1, hsub] at h
+      simp only [decide_eq_true_eq] at h
+      rw [hsub]; omega
+    · simp only [h, Bool.false_eq_true, ↓reduceIte]
+      rw [BitVec.slt_eq_decide, h1, hsub] at h
+      simp only [decide_eq_true_eq] at h
+      rw [h1]; omega
+  exact ⟨key, key⟩
+
+/-- an entry is skipped iff the cache expires entries and the saved deadline is at or before the load instant (`≤`: a deadline
+    equal to the load instant is expired), and deadlines that mean "never" are not restored -/
+theorem c19_gen_filter (w : Bool) (saved now : BitVec 64) :
+    Gen.PersistSites.LoadCacheFrom_c4 w saved now = (w && decide (saved.toInt ≤ now.toInt)) ∧
+    Gen.PersistSites.LoadCacheFrom_c7 w saved = (w && (saved != 9223372036854775807#64)) := by
+  refine ⟨?_, rfl⟩
+  unfold Gen.PersistSites.LoadCacheFrom_c4
+  rw [BitVec.sle_eq_decide]
+
 
 end OtterVerif.Props.C19
